@@ -73,7 +73,8 @@ class World:
                      A(np.array([7.0, 5.0]), unit="m"), A(9.0, unit="m"),
                      V(np.array([100.0, 300.0, 200.0]), np.array([4.0, 6.0, 5.0]), unit="cm"),
                      A(np.array([2, 0, 1], dtype=np.int64)), A(np.array([500.0, 700.0, 100.0]), unit="cm"),
-                     A(np.array([6.0, 2.0, 4.0], dtype=np.float32), unit="m"), A(np.array([900.0, 900.0, 900.0]), unit="cm")]
+                     A(np.array([6.0, 2.0, 4.0], dtype=np.float32), unit="m"), A(np.array([900.0, 900.0, 900.0]), unit="cm"),
+                     A(np.array([600.0, 200.0, 400.0]), unit="cm")]
         self.maskbuf = np.zeros(3, dtype=bool)        # one mask buffer reused (rewritten in place) by every mask index of length 3
         self.groups = [osyris.Datagroup(), osyris.Datagroup()]
         self.dsets = [osyris.Dataset()]
@@ -210,7 +211,10 @@ class World:
             elif op == "iop":
                 x = O[a["o"] - 1]
                 y = O[a["rhs"] - 1] if a["rhs"] > 0 else (2 if self.nstep % 2 else 2.0)
-                if a["rhs"] < 0:
+                if a["rhs"] == -4:
+                    cs = [getattr(x, "xyz"[i]) for i in range(x.nvec)]
+                    y = type(x)(*[cs[(i + 1) % len(cs)] for i in range(len(cs))])      # x's own components in rotated order
+                elif a["rhs"] < 0:
                     y = getattr(x, "xyz"[-a["rhs"] - 1])        # one of x's own components
                 if a["rhs"] == 0 and x.dtype.kind == "i":
                     y = 2
